@@ -576,3 +576,33 @@ Proof.
   now apply closed_eliminate_vars_acyclic.
 Qed.
 
+
+(* ---------- the value-closedness hypothesis as a decidable check on the generated model ---------- *)
+Fixpoint syms (e : expr) : list name :=
+  match e with
+  | Sym x => [x]
+  | Const _ => []
+  | Un _ a => syms a
+  | Bin _ a b => syms a ++ syms b
+  end.
+Lemma occurs_syms x e : occurs x e = true -> In x (syms e).
+Proof.
+  induction e as [y | q | o a IH | o a IHa b IHb]; simpl; try discriminate.
+  - intro H. apply Pos.eqb_eq in H. now left.
+  - exact IH.
+  - intro H. apply orb_true_iff in H. apply in_or_app. destruct H; [left; auto | right; auto].
+Qed.
+
+(* every symbol of every parameter / constant value is a declared symbol of the model *)
+Definition vals_closedb (m : model) : bool :=
+  forallb (fun p => match snd p with
+                    | Some e => forallb (fun x => mem x (decl m)) (syms e)
+                    | None => true
+                    end) (params m ++ consts m).
+
+Theorem vals_closedb_sound tm m : vals_closedb m = true -> vals_closed tm m.
+Proof.
+  unfold vals_closedb, vals_closed. intros H y v x Hin Ho. left.
+  rewrite forallb_forall in H. specialize (H (y, Some v) Hin). simpl in H.
+  rewrite forallb_forall in H. apply mem_In. apply H. now apply occurs_syms.
+Qed.
